@@ -1,12 +1,12 @@
 package main
 
 import (
-	"time"
 	"encoding/json"
 	"fmt"
 	"regexp"
 	"strconv"
 	"strings"
+	"time"
 
 	"github.com/php-any/origami/data"
 
@@ -206,11 +206,11 @@ type decCodec struct {
 	Name   string
 	Func   string
 	Fails  func(e *env, s string) map[[2]string]string
-	Ref    func(s string) (*P, bool)   // reference reader: value, well-formed
-	Enc    func(p *P) string           // reference encoder
-	ErrCls func(s string) string       // first grammar violation of a malformed text
-	Feat   func(s string) string       // optional: class of a reduced well-formed text
-	CST    bool                        // reduce well-formed texts on the concrete syntax tree
+	Ref    func(s string) (*P, bool) // reference reader: value, well-formed
+	Enc    func(p *P) string         // reference encoder
+	ErrCls func(s string) string     // first grammar violation of a malformed text
+	Feat   func(s string) string     // optional: class of a reduced well-formed text
+	CST    bool                      // reduce well-formed texts on the concrete syntax tree
 	Calls  int64
 	Alpha  map[string][]string
 	Bases  func(quick bool) []string
